@@ -27,7 +27,11 @@ macro_rules! run_kind {
         let mut q = $q;
         let mut reference: HashMap<String, i64> = HashMap::new();
         for _ in 0..$len {
-            let k = format!("k{}", $rng.below(12));
+            // the universe includes the empty string: the borrowed form `""` is zero bytes long
+            let k = match $rng.below(13) {
+                12 => String::new(),
+                n => format!("k{}", n),
+            };
             let ks: &str = k.as_str();
             let p = $rng.below(7) as i64 - 3;
             match $rng.below(9) {
